@@ -8,6 +8,9 @@ CONSTANTS
   CtShape = "none"
   MaxSteps = 0
   Escaping = "asRequired"
+  Catalogue <- CatNone
+  MaxHist = 0
+  DecoderScope = "perIteration"
   CopyVariant = "copy"
 VIEW ViewNoHist
 INVARIANT ReadAll
